@@ -26,7 +26,7 @@ From Soy Require Import Proofs.SourceTieExpr Proofs.SourceTieQuote Proofs.Source
 From Soy Require Import Model.Bytes Model.Num Model.Values Model.Ast Model.Token Model.NumLit Model.Quote Model.ExprParser
   Model.AstPrint Generated.Tables Spec.ExprSyntax Proofs.ExprParserRules Proofs.LiteralProofs Proofs.ExprParserProofs Proofs.PlaceholderTextProofs.
 From Soy Require Import Model.Outcome Model.MsgId Proofs.MsgIdProofs.
-From Soy Require Import Model.Lexer Model.Parser Proofs.LexPrintMain Proofs.LexParseText Proofs.LexPrintCmd Proofs.PrintCmdText.
+From Soy Require Import Model.Lexer Model.Parser Proofs.LexerProofs Proofs.LexExpr Proofs.LexPrintTop Proofs.LexPrintMain Proofs.LexParseText Proofs.LexPrintCmd Proofs.PrintCmdText.
 From Soy Require Import Proofs.ParserProofs Proofs.CmdParserFuel Proofs.PrintCmdFile.
 From Soy Require Import Spec.LexKeyword Proofs.LexPrint Proofs.LexKeywordProofs.
 From Soy Require Import Model.RawText Model.Parser Model.AstPrintCmd Spec.CmdSyntax Proofs.CmdRoundtripBase Proofs.CmdRoundtripRules Proofs.CmdRoundtrip Proofs.ExprParserMono Proofs.CmdParserStripDefs Proofs.CmdParserStripMain Proofs.CmdRoundtripStrip Proofs.LexBodyC17 Proofs.LexBodyC17Body Proofs.LexBodyC17Top Proofs.CmdRoundtripBytes Proofs.CmdRoundtripEof Proofs.CmdRoundtripFile Proofs.LexTokens Proofs.LexExpr.
@@ -84,6 +84,28 @@ Theorem C17_lex_print_command : forall n txt, wf_print n -> lex_ok_print n -> pr
     t_typ ld = itemLeftDelim /\ t_val ld = [123] /\ map tv mid = map tv (tokens_of_print n) /\ t_typ e = itemEOF.
 Proof. exact lex_print_command_tbl. Qed.
 Print Assumptions C17_lex_print_command.
+
+(* the expression at a position where the last item sent ENDS a term (the list expression of {for $x in e}
+   follows the identifier item "in"): lexNegative would read a leading "-" as the binary minus; every other
+   first character is lexed without looking at the last item.  For every well-formed, lexically well-formed e
+   whose printed text does not start with "-", the scanner model in lexInsideTag -- whatever item it sent last --
+   sends the items of tokens_of e (types and texts) and is back in lexInsideTag behind the text, the last item
+   ending a term; what follows the text is anything that may follow a printed expression (fexp: space ) ] , : | }
+   / or the end of the input).  Proofs/LexPrintMain.v lex_print_gen is the common generalisation of this and of
+   lex_print (operand positions, any text). *)
+Theorem C17_lex_print_any_last : forall inp base e txt, wf_expr e -> lex_ok e -> print_node e = Some txt -> no_minus txt ->
+  lexes is_letter_tbl is_digit_tbl inp base anyty fexp txt (toks e) term.
+Proof.
+  intros inp base e txt Hwf Hlo Hp Hm. destruct tables_ascii as [Hl Hd]. destruct tables_eof as [El Ed].
+  exact (lex_print_any is_letter_tbl is_digit_tbl Hl Hd El Ed inp base e Hwf Hlo txt Hp Hm).
+Qed.
+Print Assumptions C17_lex_print_any_last.
+(* non-vacuity: $xs.k + 1 and not $a satisfy the hypotheses; the side condition is needed: -$a does not *)
+Example C17_ex_any_last :
+  let e := NBin OAdd 0 (NDataRef 0 (b "xs") [NAccKey 0 false (b "k")]) (NInt 0 1) in
+  wf_expr e /\ lex_ok e /\ print_node e = Some (b "$xs.k + 1") /\ no_minus (b "$xs.k + 1") /\
+  print_node (NNeg 0 (NDataRef 0 (b "a") [])) = Some (b "-$a") /\ ~ no_minus (b "-$a").
+Proof. cbv zeta. repeat split; try reflexivity; try exact I; try (intros H; exact H). Qed.
 
 (* those items, after the opening "{", put through the parsePrint model (any budget above a bound, any position q
    for the command node): the print command itself, up to node positions *)
@@ -143,6 +165,28 @@ Print Assumptions C17_keyword_clause.
 Theorem C17_keyword_clause_print : forall n, lex_ok_print n -> c17_kw_clause n = true.
 Proof. exact lex_ok_print_kw_clause. Qed.
 Print Assumptions C17_keyword_clause_print.
+
+(* the converse, at tree level: lex_ok is EXACTLY "shape" + the clause.  lex_shape (Proofs/LexKeywordProofs.v) is
+   lex_ok with "is an ASCII word" in place of "is an ASCII word that is not a keyword" at the identifiers printed
+   bare, every other clause unchanged (literal shapes, access keys); so the decidable clause the harness evaluates
+   is all that lex_ok demands of identifiers beyond their shape, for whole trees and for print commands *)
+Theorem C17_lex_ok_is_shape_and_keyword_clause : forall e, lex_ok e <-> lex_shape e /\ c17_kw_clause e = true.
+Proof. exact lex_ok_iff. Qed.
+Print Assumptions C17_lex_ok_is_shape_and_keyword_clause.
+
+Theorem C17_lex_ok_print_is_shape_and_keyword_clause : forall n, lex_ok_print n <-> lex_shape_print n /\ c17_kw_clause n = true.
+Proof. exact lex_ok_print_iff. Qed.
+Print Assumptions C17_lex_ok_print_is_shape_and_keyword_clause.
+(* non-vacuity: and(1) has the shape and fails only the clause; round($a.b, 'x') has both *)
+Example C17_ex_shape_without_clause :
+  lex_shape (NFunc 0 (b "and") [NInt 0 1]) /\ c17_kw_clause (NFunc 0 (b "and") [NInt 0 1]) = false /\
+  lex_shape (NFunc 0 (b "round") [NDataRef 0 (b "a") [NAccKey 0 false (b "b")]]) /\
+  c17_kw_clause (NFunc 0 (b "round") [NDataRef 0 (b "a") [NAccKey 0 false (b "b")]]) = true.
+Proof.
+  split; [split; [exists 97, (b "nd"); repeat split; try reflexivity; lia|split; exact I]|]. split; [vm_compute; reflexivity|].
+  split; [|vm_compute; reflexivity].
+  split; [exists 114, (b "ound"); repeat split; try reflexivity; lia|]. split; [|exact I]. split; [reflexivity|]. split; [|exact I]. split; reflexivity.
+Qed.
 
 (* the clause is needed: a function named like a keyword prints as text that the scanner reads differently *)
 Example C17_ex_keyword_name :
@@ -535,11 +579,11 @@ Proof. vm_compute. split; [reflexivity | discriminate]. Qed.
    PARTIAL in the class:
    raw text that lexText reads as one piece whatever precedes it (lb17_one_piece: no comment opener "/*", no "//" at
    its start or behind white space; a single "/" is fine), print, {debugger}, {log}, {let} in both forms,
-   {if}/{elseif}/{else}, {for}/{ifempty} with a plain variable as the list (lb17_anylast: the expression after "in"
+   {if}/{elseif}/{else}, {for}/{ifempty} under lb17_anylast (lb17_anylast_no_minus: every list expression whose text does not start with "-"; after "in" it
    is lexed with a term as the previous item), {switch} whose cases all have values (the default case prints as
    "{case }": W1), {css}, {call} with data="all" / data="e" / no attribute, without parameters ({call x.y/}) or with
    parameters of both forms ({param k: e/}, {param k}..{/param}); NOT {msg} / {plural} (the run accumulation of
-   children_toks and %q strings at string level), list expressions other than a variable after "in", {css} text
+   children_toks and %q strings at string level), {css} text
    with non-ASCII bytes.  Raw text WITH a comment opener is outside for a reason of the code, not of the proof:
    RawTextNode.String() writes the text, and the scanner takes "//" behind white space and "/*" as comments
    (another member of W2, notes/astprint-reparse.md).
